@@ -34,6 +34,7 @@ type scenario struct {
 	Faults      []int
 	Tags        map[string]bool // features present, for the coverage statistics
 	NoReplay    bool            // Go map iteration order can show: judged by the set-level checkers only
+	Pre         *scenario       // an earlier request served by the SAME actor value (its own configuration; not recorded)
 }
 
 type runResult struct {
@@ -112,49 +113,68 @@ func runScenario(sc *scenario) (res runResult) {
 		}
 	}()
 	ctx := context.Background()
-	var body []byte
-	if sc.Body != nil {
-		body, _ = json.Marshal(sc.Body)
-	} else {
-		body = []byte(sc.RawBody)
+	var actor pub.FederatingActor
+	exec := func(sc *scenario, rw *recWriter) (handled bool, err error, sent jmap) {
+		var body []byte
+		if sc.Body != nil {
+			body, _ = json.Marshal(sc.Body)
+		} else {
+			body = []byte(sc.RawBody)
+		}
+		mkReq := func() *http.Request {
+			q, _ := http.NewRequest(sc.Method, "https://"+host+sc.Path, bytes.NewReader(body))
+			if sc.ContentType != "" {
+				q.Header.Set("Content-Type", sc.ContentType)
+			}
+			if sc.Accept != "" {
+				q.Header.Set("Accept", sc.Accept)
+			}
+			q.Host = host
+			return q
+		}
+		if actor == nil && sc.Entry != "handler" {
+			actor = buildActor(r)
+		}
+		switch sc.Entry {
+		case "postinbox":
+			handled, err = actor.PostInbox(ctx, rw, mkReq())
+		case "postoutbox":
+			handled, err = actor.PostOutbox(ctx, rw, mkReq())
+		case "getinbox":
+			handled, err = actor.GetInbox(ctx, rw, mkReq())
+		case "getoutbox":
+			handled, err = actor.GetOutbox(ctx, rw, mkReq())
+		case "handler":
+			handled, err = pub.NewActivityStreamsHandler(r, r)(ctx, rw, mkReq())
+		case "send":
+			t, terr := toTyped(sc.Send)
+			if terr != nil {
+				panic("harness: Send value does not decode: " + terr.Error())
+			}
+			var act pub.Activity
+			act, err = actor.Send(ctx, mustURL("https://"+host+sc.Path), t)
+			handled = true
+			if err == nil && act != nil {
+				sent = ser(act)
+			}
+		default:
+			panic("unknown entry " + sc.Entry)
+		}
+		return
 	}
-	mkReq := func() *http.Request {
-		q, _ := http.NewRequest(sc.Method, "https://"+host+sc.Path, bytes.NewReader(body))
-		if sc.ContentType != "" {
-			q.Header.Set("Content-Type", sc.ContentType)
-		}
-		if sc.Accept != "" {
-			q.Header.Set("Accept", sc.Accept)
-		}
-		q.Host = host
-		return q
+	if sc.Pre != nil { // served first by the same actor value, under its own configuration, without faults; not part of the trace
+		saved, savedFaults := cfg, r.faults
+		cfg = sc.Pre.Cfg
+		r.faults = nil
+		exec(sc.Pre, &recWriter{r: r, h: http.Header{}, digestIdx: -1})
+		cfg = saved
+		r.faults = savedFaults
+		r.trace = nil
+		r.nFall = 0
 	}
-	var handled bool
-	var err error
-	switch sc.Entry {
-	case "postinbox":
-		handled, err = buildActor(r).PostInbox(ctx, rw, mkReq())
-	case "postoutbox":
-		handled, err = buildActor(r).PostOutbox(ctx, rw, mkReq())
-	case "getinbox":
-		handled, err = buildActor(r).GetInbox(ctx, rw, mkReq())
-	case "getoutbox":
-		handled, err = buildActor(r).GetOutbox(ctx, rw, mkReq())
-	case "handler":
-		handled, err = pub.NewActivityStreamsHandler(r, r)(ctx, rw, mkReq())
-	case "send":
-		t, terr := toTyped(sc.Send)
-		if terr != nil {
-			panic("harness: Send value does not decode: " + terr.Error())
-		}
-		var act pub.Activity
-		act, err = buildActor(r).Send(ctx, mustURL("https://"+host+sc.Path), t)
-		handled = true
-		if err == nil && act != nil {
-			res.Sent = ser(act)
-		}
-	default:
-		panic("unknown entry " + sc.Entry)
+	handled, err, sent := exec(sc, rw)
+	if sent != nil {
+		res.Sent = sent
 	}
 	res.Trace = r.trace
 	res.Handled = handled
